@@ -622,6 +622,9 @@ def install(w):
         return some(a[0])
     M['NonZero::new'] = nonzero_new
 
+    # all TypeIds are modelled as equal: harnesses only connect endpoints of the matching type
+    M['TypeId::of'] = lambda ex, c, a: Opaque('TypeId')
+
     def size_of(ex, c, a):
         ty = generic_arg(c.mgenerics)
         if ty in INT_BITS:
